@@ -83,7 +83,26 @@ func VerifH_C20_lz4Decode() {
 func VerifS_C20_lz4Decode() {
 	valid, _ := vReplayVal("valid", 0)
 	if valid == 1 {
-		vCover("scenario: valid case has no native re-enactment")
+		// valid blocks with a high expansion ratio (long runs), decoded into
+		// destination buffers smaller than the output so that the retry loop runs
+		c := &Codec{Level: DefaultLevel}
+		for _, n := range []int{300, 4096, 10000, 100000} {
+			orig := make([]byte, n)
+			block, err := c.Encode(nil, orig)
+			if err != nil {
+				vAssert(false, "scenario: encode")
+				return
+			}
+			for _, dstCap := range []int{0, 1, 16, 64, n - 1} {
+				var out []byte
+				returned := vWithTimeout(func() { out, err = c.Decode(make([]byte, 0, dstCap), block) }, 20)
+				vAssert(returned, "Decode of a valid block returns")
+				if returned {
+					vAssert(err == nil && len(out) == n, "valid block decodes")
+				}
+			}
+		}
+		vCover("scenario")
 		return
 	}
 	c := &Codec{Level: DefaultLevel}
